@@ -1324,6 +1324,7 @@ struct TemplateCore {
                 while (loop_index < loop_size) {
                     LoopItem &item = loops_items_->Storage()[tag.Level];
                     item.Value     = loop_set->GetValue(loop_index);
+                    item.Key       = StringView<Char_T>{}; // An array item has no key (drop the one of an earlier object loop).
 
                     if (item.Value != nullptr) {
                         render(s_tag, s_end, content_offset, tag.EndOffset);
